@@ -39,9 +39,9 @@ type C16Op struct {
 }
 
 type C16Client struct {
-	Addr     string  `json:"addr"`
-	StartUs  int     `json:"start_us,omitempty"` // when the connection is opened
-	Ops      []C16Op `json:"ops"`
+	Addr    string  `json:"addr"`
+	StartUs int     `json:"start_us,omitempty"` // when the connection is opened
+	Ops     []C16Op `json:"ops"`
 }
 
 type C16Admin struct {
@@ -61,10 +61,10 @@ type C16Scn struct {
 }
 
 type polEra struct {
-	spec     PolSpec
-	ptr      *absnfs.PolicyOptions
-	start    int64 // stamp when the update that installs it was called (0 for the initial policy)
-	ret      int64 // stamp when that update returned (0 for the initial policy; -1 while pending)
+	spec  PolSpec
+	ptr   *absnfs.PolicyOptions
+	start int64 // stamp when the update that installs it was called (0 for the initial policy)
+	ret   int64 // stamp when that update returned (0 for the initial policy; -1 while pending)
 }
 
 type c16World struct {
@@ -519,7 +519,7 @@ func shrinkC16(scAny any) []any {
 func init() {
 	Register(&Prop{ID: "C16", Level: "exploration", Race: true,
 		Rule: "one case = 2-4 clients on their own connections (opened before or after updates, from addresses inside/outside the allow-lists and ports either side of 1024) issuing 2-8 of NULL/GETATTR/LOOKUP/READ/WRITE/CREATE/REMOVE/3-call bursts with pauses, an admin issuing 1-3 UpdatePolicyOptions/UpdateExportOptions with drawn ReadOnly/AllowedIPs/Secure/rate-limiting values at drawn instants, 0-3 backend calls stalled for 1 ms-40 s (shorter and longer than the request timeout), 1-3 workers, every lock/channel/select/network/backend interleaving decided by the seeded scheduler, also built with -race; monitors: (I1) all backend calls of one request goroutine saw one live policy pointer, (I2) when an update returns no backend call begun under an older policy is in progress, (I3) each reply is the verdict of a policy that was possibly in force between send and receive (ROFS, MSG_DENIED for excluded address/port, rate limiting incl. on connections opened before the update), (I4) drain-window replies are counted (their shape is C14's business), (I5) the update returns once stalls end (bounded liveness by quiescence), no panic; non-trivial = a request hit the drain window AND an update was issued while a backend call was parked; distinct by event digest",
-		Gen: genC16, New: func() any { return &C16Scn{} }, Run: runC16, Shrink: shrinkC16,
+		Gen:  genC16, New: func() any { return &C16Scn{} }, Run: runC16, Shrink: shrinkC16,
 		Real:    []string{"UpdatePolicyOptions", "UpdateExportOptions", "HandleCall (TryRLock admission, per-request goroutine, timeout)", "connection loop incl. rate limiting", "worker pool", "all procedure handlers"},
 		Stubbed: seqStubbed})
 }
